@@ -244,17 +244,25 @@ def gen_angle(rng, n):
         n1, n2 = F(rng.randint(-3, 3), 2), F(rng.randint(-3, 3), 3)
         v1 = [m1 * a + n1 * b for a, b in zip(w1, g[0])]
         v2 = [m2 * a + n2 * b for a, b in zip(w2, g[0])]
-        yield {"dim": dim, "p": G.qv(p), "v1": G.qv(v1), "v2": G.qv(v2)}
+        inp = {"dim": dim, "p": G.qv(p), "v1": G.qv(v1), "v2": G.qv(v2)}
+        if rng.random() < 0.5:
+            # `other` stores its own representative q = mu * p of the same point, on either sheet (Lean angleCosPair)
+            mu = rng.choice([F(-1), F(-1), F(-5, 2), F(1, 3), F(2), F(-1, 7)])
+            inp["q"] = G.qv([mu * x for x in p])
+        yield inp
 
 
 def run_angle(inp):
     P = H.Point(G.fv(inp["p"]))
-    a = H.TangentVector(P, G.fv(inp["v1"])).angle(H.TangentVector(H.Point(G.fv(inp["p"])), G.fv(inp["v2"])))
+    a = H.TangentVector(P, G.fv(inp["v1"])).angle(H.TangentVector(H.Point(G.fv(inp.get("q", inp["p"]))), G.fv(inp["v2"])))
     return {"angle": float(np.asarray(a).reshape(-1)[0])}
 
 
 def lean_angle(inp, obs):
-    return [{"op": "c13.angle_cos", "p": inp["p"], "v1": inp["v1"], "v2": inp["v2"]}]
+    op = {"op": "c13.angle_cos", "p": inp["p"], "v1": inp["v1"], "v2": inp["v2"]}
+    if "q" in inp:
+        op["q"] = inp["q"]
+    return [op]
 
 
 def judge_angle(inp, obs, lr):
@@ -1057,7 +1065,7 @@ CLAUSES = [
            budget={"quick": 120, "thorough": 3000},
            what="point_along(t), hyp_to_affine_dist(t), cosh d for t = log u, u rational (both signs of t)"),
     Clause("angle_corr", "corr", gen_angle, run_angle, judge_angle, lean=lean_angle, site="hyperbolic.TangentVector.angle",
-           budget={"quick": 100, "thorough": 2000}, what="cos(TangentVector.angle) vs Lean angleCos on rational frames, unnormalised and unprojected vectors"),
+           budget={"quick": 100, "thorough": 2000}, what="cos(TangentVector.angle) vs Lean angleCos / angleCosPair (other tangent vector stored at another representative of the base point, either sheet) on rational frames, unnormalised and unprojected vectors"),
     Clause("poly_corr", "corr", gen_poly, run_poly, judge_poly, lean=lean_poly, site="hyperbolic.Polygon.regular_polygon",
            budget={"quick": 80, "thorough": 1500},
            what="regular_polygon vertices vs Lean polyVertex (exact on the float cos/sin/tanh), radius/angle closed forms, n = 3..12, dims 2-4"),
